@@ -308,3 +308,75 @@ def hg_call(fn, a):
     with warnings.catch_warnings():
         warnings.simplefilter("ignore")
         return fn(a["incoming_type"], a["required_type"], a["memo"])
+
+
+# ---- is_type_compatible itself: the order in which the rules are consulted ---------------------------------------------------
+# Each rule is a function under its own contract (above / C16's bounded check); here they are functions of their
+# arguments, and the top level is the first rule that reaches a verdict.  (The relation that the rules *use* on component
+# types is this function again - modular reasoning does not tie that knot; the bounded check compares the whole against a
+# reference subtype relation.)
+TypeW = TRec("TypeW", {"tid": TObj, "is_typevar": TBool})
+TypeW.identity = "tid"
+TypeW.class_tests = {"TypeVar": "is_typevar"}
+OB = TOpt(TBool)
+
+top_resolve = Contract(f"{F}::_resolve_type", params={"type_": TObj, "memo": TObj}, returns=TypeW, trusted=True, pure=True,
+                       note="forward references / strings resolved against the memo's namespaces")
+top_ident = Contract(f"{F}::_check_identical_or_any", params={"incoming_type": TypeW, "required_type": TypeW}, returns=TBool,
+                     trusted=True, pure=True, note="here a function of its arguments; own contract proved above")
+top_typevar = Contract(f"{F}::_is_typevar_compatible", params={"incoming_type": TypeW, "required_type": TypeW, "memo": TObj},
+                       returns=OB, trusted=True, pure=True, note="TypeVar targets: constraints / bound (bounded check)")
+top_union = Contract(f"{F}::_handle_union_types", params={"incoming_type": TypeW, "required_type": TypeW, "memo": TObj},
+                     returns=OB, trusted=True, pure=True, note="here a function of its arguments; own contract proved above")
+top_generic = Contract(f"{F}::_handle_generic_types", params={"incoming_type": TypeW, "required_type": TypeW, "memo": TObj},
+                       returns=OB, trusted=True, pure=True, note="here a function of its arguments; own contract proved above")
+
+
+def _top_conc(a):
+    """The same composition evaluated with the real rules (bounded rung)."""
+    import warnings
+    from typing import TypeVar
+    import pipefunc.typing as T
+    with warnings.catch_warnings():
+        warnings.simplefilter("ignore")
+        ri, rq = T._resolve_type(a.incoming_type, a.memo), T._resolve_type(a.required_type, a.memo)
+        if isinstance(ri, TypeVar) or T._check_identical_or_any(ri, rq):
+            return True
+        for rule in (T._is_typevar_compatible, T._handle_union_types, T._handle_generic_types):
+            v = rule(ri, rq, a.memo)
+            if v is not None:
+                return v
+        return False
+
+
+def _top_ensures(S, a, r, post):
+    if not S.symbolic:
+        return {"the first rule with a verdict decides": bool(r) == bool(_top_conc(a))}
+    m = a.memo
+    ri, rq = S.uf("fn:_resolve_type", TypeW, a.incoming_type, m), S.uf("fn:_resolve_type", TypeW, a.required_type, m)
+    ident = S.uf("fn:_check_identical_or_any", TBool, ri, rq)
+    tv, un, ge = (S.uf(f"fn:{n}", OB, ri, rq, m) for n in ("_is_typevar_compatible", "_handle_union_types", "_handle_generic_types"))
+    first = S.ite(S.not_(S.is_none(tv)), lambda: S.some(tv), lambda: S.ite(
+        S.not_(S.is_none(un)), lambda: S.some(un), lambda: S.ite(S.not_(S.is_none(ge)), lambda: S.some(ge), lambda: False)))
+    return {"a TypeVar source or the base case accept; otherwise the first rule with a verdict decides (TypeVar target, "
+            "unions, generics), and without any verdict the answer is no": S.iff(r, S.or_(ri.is_typevar, ident, lambda: first))}
+
+
+is_type_compatible_top = Contract(
+    f"{F}::is_type_compatible", params={"incoming_type": TObj, "required_type": TObj, "memo": TObj}, returns=TBool,
+    requires=lambda S, a: {"a memo is given (the default builds an empty one, for testing)":
+                           S.not_(S.eq(a.memo, Val(TObj, TObj.lit(None)))) if S.symbolic else a.memo is not None},
+    ensures=_top_ensures,
+)
+TOP = [top_resolve, top_ident, top_typevar, top_union, top_generic, is_type_compatible_top]
+
+
+def top_gen(rng, tier):
+    from pipefunc.typing import TypeCheckMemo
+    memo = TypeCheckMemo(globals={}, locals={})
+    from typing import Annotated, TypeVar
+    from pipefunc.typing import Array
+    pool = _pool() + [Annotated[int, "m"], Array[int], Array[bool], list[str], tuple[int, int], TypeVar("T"),
+                      TypeVar("B", bound=int), TypeVar("C", int, str), "int", "list[int]"]
+    for _ in range(600 if tier == "quick" else 6000):
+        yield {"incoming_type": rng.choice(pool), "required_type": rng.choice(pool), "memo": memo}
